@@ -41,6 +41,11 @@ def monotone_map(rng, n, style=None):
 
     Styles cover negative values (maximised objectives), tiny and huge magnitudes, integers, and mixtures."""
     style = style or rng.choice(["int", "neg", "unit", "tiny", "huge", "mixed", "offset"])
+    if style == "close":
+        # distinct values far closer to each other than any plausible tolerance, yet far above rounding error (only on request)
+        base = rng.choice([0.0, 1.0, -3.5, 250.0])
+        step = rng.choice([1e-7, 3e-8, 1e-9])
+        return [base + k * step for k in range(n)]
     if style == "int":
         start = rng.randint(-5, 5)
         vals = [float(start + k * rng.choice([1, 1, 2, 3])) for k in range(n)]
@@ -80,7 +85,7 @@ def dense_ranks(columns):
     for i in range(m):
         vals = sorted({v[i] for v in columns})
         for a, b in zip(vals, vals[1:]):
-            if b - a < 1e-7 * max(1.0, abs(a), abs(b)):
+            if b - a < 1e-12 * max(1.0, abs(a), abs(b)):
                 raise ValueError("near tie")
         idx = {v: k for k, v in enumerate(vals)}
         for k, v in enumerate(columns):
